@@ -1,5 +1,5 @@
 (* C04 -- conditional compilation.  Property theorems only; proofs live in PP/EvalFacts.v. *)
-From SV Require Import Eval EvalFacts SkipCheck SkipFacts.
+From SV Require Import Eval EvalFacts SkipCheck SkipFacts SkipTree.
 
 (* IEEE 1800-2017 22.6 decision rule, for every chain shape (any number of `elsif, with or
    without `else), every define table and every source text: entering an `ifdef / `ifndef puts
@@ -76,3 +76,15 @@ Example C04_erasable_example :
   exists x', cond_enter true ex_src (Node K_IfndefDirective (chain_children (ex_chain 8 1))) (st0 []) = ROk x' /\
              erasable x' (ex_leafnode K_ElsifGroupOfLines 50) = true.
 Proof. eexists. vm_compute. split; reflexivity. Qed.
+
+(* The loop is a tree walk that does not visit listed subtrees.  [run_tree] performs Enter, the
+   children in order, Leave -- except that a listed node met with skip off is jumped over, subtree
+   and all.  Whenever the per-case hypothesis holds along the run (every listed node met with skip
+   off is erasable: [skip_hyp_ok], the function the model evaluates beside every correspondence
+   case), the event loop over the whole tree computes exactly that walk: same output, origins,
+   table, line trackers, same error. *)
+Theorem C04_loop_is_tree_walk : forall c rec s p ignore strip rdepth idepth t x,
+  fst (skip_hyp_ok (step c rec s p ignore strip rdepth idepth) (events t) x) = true ->
+  run_events (step c rec s p ignore strip rdepth idepth) (events t) x =
+  run_tree c rec s p ignore strip rdepth idepth t x.
+Proof. exact loop_is_tree_walk. Qed.
